@@ -300,6 +300,21 @@ def check_merge(cx: Cx, ob: Ob) -> None:
                 elif op(c) == "cmp" and c[1] in ("==", "!=") and val in (c[2], c[3]) and ((c[1] == "!=") == pol):
                     other = c[3] if c[2] == val else c[2]
                     cover |= {f for rr, f in prov.fields(other) if rr == into}
+                elif op(c) == "call" and c[1] in (("func", f"{API}._in"), ("func", f"{API}._eq")) and len(c[2]) >= 2 and c[2][0] == val and pol is False:
+                    kw_ = dict(c[3])
+                    cs_ = kw_.get("case_sensitive") or (c[2][2] if len(c[2]) > 2 else None)
+                    if c[1][1].endswith("._in"):
+                        cover |= {f for rr, f in _container_fields(prov, c[2][1]) if rr == into}
+                    else:
+                        cover |= {f for rr, f in prov.fields(c[2][1]) if rr == into}
+                    if not is_const(cs_, True):
+                        ob.violate(
+                            fn.qualname,
+                            where(fn, ev.line),
+                            f"_merge decides whether a name is already present through {c[1][1].rsplit('.', 1)[-1]}(..., case_sensitive={show(cs_) if cs_ else '?'}): with case-insensitive matching a (URI) prefix that differs from an existing one only by case is not added - it is in no record and resolves nowhere although the merge succeeded",
+                            witness="chain([{a: 'http://x/A_'}, {a: 'http://x/a_'}], case_sensitive=False): 'http://x/a_' is lost, a shorter nested prefix of another record wins",
+                            detail=f"weak-membership:{lst}",
+                        )
                 elif op(c) == "cmp" and c[1] in ("in", "not in") and ((c[1] == "not in") == pol) and op(c[2]) == "call" and op(c[2][1]) == "attr" and c[2][1][1] == val and c[2][1][2] in ("casefold", "lower", "upper", "strip"):
                     ob.violate(
                         fn.qualname,
@@ -500,6 +515,8 @@ def check_compare_helpers(cx: Cx, ob: Ob) -> None:
                         return "F"
                     if {l, r} == {A, tgt}:
                         return "E"
+            if op(t) == "cmp" and t[1] == "in" and _fold_of(t[2], A) and t[3] == Bp:
+                return "H"  # folded needle in an UNfolded haystack: a fact of its own
             if op(t) == "cmp" and t[1] == "in" and _fold_of(t[2], A):
                 c = t[3]
                 if op(c) == "call" and c[1] in (("builtin", "set"), ("builtin", "list"), ("builtin", "tuple"), ("builtin", "frozenset")) and len(c[2]) == 1:
@@ -524,8 +541,8 @@ def check_compare_helpers(cx: Cx, ob: Ob) -> None:
                 for F in (False, True):
                     if E and not F:
                         continue  # equal strings have equal case-folds
-                    for Cv in (False, True):
-                        env = {"E": E, "F": F, "C": Cv}
+                    for Cv, Hv in ((False, False), (False, True), (True, False), (True, True)):
+                        env = {"E": E, "F": F, "C": Cv, "H": Hv}
                         got = None
                         for t, ctx in hs.returns():
                             if all(_bool_eval(g.a, atom, env) == g.b for g in ctx.guards if g.kind == "guard"):
@@ -621,3 +638,11 @@ def x13(cx: Cx, ob: Ob) -> None:
     from ..rules import no_fields_set_dependence
 
     no_fields_set_dependence(cx, ob)
+
+
+@obligation("C05-X17", "queries read the records, not the insertion order of the incrementally filled tables: expand_pair_all enumerates the URI prefixes of the record found by get_record, canonical first (shared with C02-D7), so an incrementally built converter answers like a fresh one", floor=2)
+def x17(cx: Cx, ob: Ob) -> None:
+    from .c02 import check_expand_pair_all, check_get_record
+
+    check_expand_pair_all(cx, ob)
+    check_get_record(cx, ob)
